@@ -115,15 +115,20 @@ impl SI {
 }
 fn spec_defined(c: &SchedCase) -> bool {
     let mut keys: Vec<Val> = vec![];
+    let mut del: Vec<Val> = vec![];
+    let mut upd: Vec<Val> = vec![];
     for (h, o) in &c.steps {
         if *h >= c.nh { return false; }
         match o {
             Op::Ins(rows) => for r in rows { if r.0.is_null() || keys.contains(&r.0) { return false; } keys.push(r.0.clone()); },
             Op::Upd(0, _, _) | Op::Save(_) | Op::RollTo(_) | Op::Release(_) => return false,
+            Op::Upd(_, _, Some((0, k))) => upd.push(k.clone()),
+            Op::Del(Some((0, k))) => { if k.is_null() || del.contains(k) { return false; } del.push(k.clone()); }
+            Op::Upd(..) | Op::Del(_) => return false,
             _ => {}
         }
     }
-    true
+    !del.iter().any(|k| upd.contains(k))
 }
 fn bag(rows: &[TRow]) -> Vec<String> { let mut v: Vec<String> = rows.iter().map(|r| format!("{},{}", r.0.to_tok(), r.1.to_tok())).collect(); v.sort(); v }
 fn spec_holds(c: &SchedCase, obs: &[SObs]) -> bool {
@@ -164,17 +169,33 @@ fn known_class(c: &SchedCase) -> i64 {
 }
 
 // ------------------------------------------------------------------ generators
-struct Keys { next: i64, live: Vec<i64> }
+/// Keys of one case.  The scripts of a case are generated one after the other but run interleaved,
+/// so a key that some script DELETEs must not be touched by any other UPDATE / DELETE of the case,
+/// before or after: UPDATE / DELETE scans do not skip tombstones (finding of C05), which would leak
+/// into this property.
+struct Keys { next: i64, live: Vec<i64>, updated: Vec<i64> }
 impl Keys {
+    fn new() -> Keys { Keys { next: 0, live: vec![], updated: vec![] } }
     fn fresh(&mut self) -> i64 { self.next += 1; self.live.push(self.next); self.next }
-    fn pick(&mut self, rng: &mut Rng) -> Option<i64> { if self.live.is_empty() { None } else { Some(*rng.pick(&self.live)) } }
-    fn kill(&mut self, k: i64) { self.live.retain(|x| *x != k); }
+    fn pick_update(&mut self, rng: &mut Rng) -> Option<i64> {
+        if self.live.is_empty() { return None; }
+        let k = *rng.pick(&self.live);
+        if !self.updated.contains(&k) { self.updated.push(k); }
+        Some(k)
+    }
+    fn pick_delete(&mut self, rng: &mut Rng) -> Option<i64> {
+        let cand: Vec<i64> = self.live.iter().copied().filter(|k| !self.updated.contains(k)).collect();
+        if cand.is_empty() { return None; }
+        let k = *rng.pick(&cand);
+        self.live.retain(|x| *x != k);
+        Some(k)
+    }
 }
 fn gen_dml(rng: &mut Rng, ks: &mut Keys) -> Op {
     match rng.below(10) {
         0..=3 => Op::Ins(vec![(Val::Int(ks.fresh()), Val::Int(rng.range(1, 9)))]),
-        4..=7 => match ks.pick(rng) { Some(k) => Op::Upd(1, Val::Int(rng.range(10, 99)), Some((0, Val::Int(k)))), None => Op::Ins(vec![(Val::Int(ks.fresh()), Val::Int(1))]) },
-        _ => match ks.pick(rng) { Some(k) => { ks.kill(k); Op::Del(Some((0, Val::Int(k)))) } None => Op::Obs },
+        4..=7 => match ks.pick_update(rng) { Some(k) => Op::Upd(1, Val::Int(rng.range(10, 99)), Some((0, Val::Int(k)))), None => Op::Ins(vec![(Val::Int(ks.fresh()), Val::Int(1))]) },
+        _ => match ks.pick_delete(rng) { Some(k) => Op::Del(Some((0, Val::Int(k)))), None => Op::Obs },
     }
 }
 /// the statements one handle wants to issue, in order
@@ -216,7 +237,7 @@ fn gen_cases(rng: &mut Rng, thorough: bool) -> Vec<(SchedCase, &'static str)> {
     // exhaustive interleavings of pairs of short scripts
     let pairs = if thorough { 60 } else { 12 };
     for _ in 0..pairs {
-        let mut ks = Keys { next: 0, live: vec![] };
+        let mut ks = Keys::new();
         let seed = seed_step(&mut ks, rng);
         let mut a = gen_script(rng, &mut ks); a.truncate(3);
         let mut b = gen_script(rng, &mut ks); b.truncate(3);
@@ -232,7 +253,7 @@ fn gen_cases(rng: &mut Rng, thorough: bool) -> Vec<(SchedCase, &'static str)> {
     }
     // serial schedules: one handle after the other
     for _ in 0..if thorough { 300 } else { 30 } {
-        let mut ks = Keys { next: 0, live: vec![] };
+        let mut ks = Keys::new();
         let nh = 2 + rng.below(2) as usize;
         let mut steps = vec![seed_step(&mut ks, rng)];
         for _ in 0..2 + rng.below(3) {
@@ -244,7 +265,7 @@ fn gen_cases(rng: &mut Rng, thorough: bool) -> Vec<(SchedCase, &'static str)> {
     }
     // random interleavings of 2..3 handles, several scripts each
     for _ in 0..if thorough { 3000 } else { 50 } {
-        let mut ks = Keys { next: 0, live: vec![] };
+        let mut ks = Keys::new();
         let nh = 2 + rng.below(2) as usize;
         let seed = seed_step(&mut ks, rng);
         let scripts: Vec<Vec<Op>> = (0..nh).map(|_| { let mut v = gen_script(rng, &mut ks); if rng.chance(1, 2) { v.extend(gen_script(rng, &mut ks)); } v }).collect();
